@@ -615,6 +615,181 @@ Proof.
         destruct (save_has_dig (ctags c) (cdigs c) d Hd) as (r & Hr). exists l, r. split; [exact Hl|now apply Hs].
 Qed.
 
+(* ---------- completed Tag / Untag of a batch ---------- *)
+Ltac shp2 := right; eexists _, _, _, _; split; [reflexivity|]; split; [eassumption|];
+  refine (conj _ (conj eq_refl _)); [reflexivity|].
+
+Lemma step_tags c j :
+  stepN c j = c \/
+  exists t a rest t', nth_error (cthreads c) j = Some t /\ tprog t = a :: rest /\ tprog t' = rest /\
+    cthreads (stepN c j) = set_nth j t' (cthreads c) /\
+    ctags (stepN c j) = match a with
+                        | TTagMem d (Some r) => tag_set r d (ctags c)
+                        | TUntagMem r => tag_del r (ctags c)
+                        | _ => ctags c
+                        end.
+Proof.
+  unfold sched_step. destruct (nth_error (cthreads c) j) as [t|] eqn:En; [|now left].
+  unfold fire. destruct (tprog t) as [|a rest] eqn:Ep; [now left|].
+  destruct a as [x|d0| |d0 r0|r0| | |]; cbv beta iota zeta; try (shp2; reflexivity).
+  - destruct (clock c); [now left|]. shp2; reflexivity.
+  - destruct (tsnap t); shp2; reflexivity.
+Qed.
+
+Definition touches (r : N) (a : act) : Prop := (exists d, a = TTagMem d (Some r)) \/ a = TUntagMem r.
+
+(* the only action of the batch that touches reference r is A, in thread i *)
+Definition Only (r : N) (i : nat) (A : act) (c : conf) : Prop :=
+  forall j t a, nth_error (cthreads c) j = Some t -> In a (tprog t) -> touches r a -> j = i /\ a = A.
+
+Lemma only_step r i A c j : Only r i A c -> Only r i A (stepN c j).
+Proof.
+  intro O. destruct (step_tags c j) as [->|(t & a & rest & t' & En & Ep & Ep' & Ec & _)]; [exact O|].
+  intros k u b Eu Hin T. rewrite Ec in Eu. destruct (Nat.eq_dec j k) as [->|Hn].
+  - rewrite (nth_set_same _ k t t' En) in Eu. injection Eu as <-. apply (O k t b En); [|exact T].
+    rewrite Ep. right. now rewrite <- Ep'.
+  - rewrite nth_set_other in Eu by exact Hn. exact (O k u b Eu Hin T).
+Qed.
+
+Definition TagDone (r d : N) (i : nat) (c : conf) : Prop :=
+  (exists t, nth_error (cthreads c) i = Some t /\ In (TTagMem d (Some r)) (tprog t)) \/ In (r, d) (ctags c).
+
+Lemma tagdone_step r d i c j :
+  Only r i (TTagMem d (Some r)) c -> TagDone r d i c -> TagDone r d i (stepN c j).
+Proof.
+  intros O D. destruct (step_tags c j) as [->|(t & a & rest & t' & En & Ep & Ep' & Ec & Et)]; [exact D|].
+  destruct D as [(u & Eu & Hin)|Hin].
+  - destruct (Nat.eq_dec j i) as [->|Hn].
+    + rewrite En in Eu. injection Eu as <-. rewrite Ep in Hin. destruct Hin as [E|Hin].
+      * right. rewrite Et, E. now left.
+      * left. exists t'. split; [rewrite Ec; now apply (nth_set_same _ i t)|now rewrite Ep'].
+    + left. exists u. split; [rewrite Ec, nth_set_other by exact Hn; exact Eu|exact Hin].
+  - right. rewrite Et.
+    assert (Ha : In a (tprog t)) by (rewrite Ep; now left).
+    destruct a; try exact Hin.
+    + destruct r0 as [r0|]; [|exact Hin]. apply tag_set_iff. destruct (N.eq_dec r r0) as [<-|Hn].
+      * destruct (O j t _ En Ha) as [_ E]; [left; now exists d0|]. injection E as ->. left. now split.
+      * right. now split.
+    + unfold tag_del. apply filter_In. split; [exact Hin|]. cbn [fst]. apply negb_true_iff. apply N.eqb_neq.
+      intros <-. destruct (O j t _ En Ha) as [_ E]; [now right|]. discriminate.
+Qed.
+
+Definition UntagDone (r : N) (i : nat) (c : conf) : Prop :=
+  (exists t, nth_error (cthreads c) i = Some t /\ In (TUntagMem r) (tprog t)) \/ forall n, ~ In (r, n) (ctags c).
+
+Lemma untagdone_step r i c j :
+  Only r i (TUntagMem r) c -> UntagDone r i c -> UntagDone r i (stepN c j).
+Proof.
+  intros O D. destruct (step_tags c j) as [->|(t & a & rest & t' & En & Ep & Ep' & Ec & Et)]; [exact D|].
+  destruct D as [(u & Eu & Hin)|Hno].
+  - destruct (Nat.eq_dec j i) as [->|Hn].
+    + rewrite En in Eu. injection Eu as <-. rewrite Ep in Hin. destruct Hin as [E|Hin].
+      * right. rewrite Et, E. intros n Hn. unfold tag_del in Hn. apply filter_In in Hn as [_ Hn].
+        cbn [fst] in Hn. now rewrite N.eqb_refl in Hn.
+      * left. exists t'. split; [rewrite Ec; now apply (nth_set_same _ i t)|now rewrite Ep'].
+    + left. exists u. split; [rewrite Ec, nth_set_other by exact Hn; exact Eu|exact Hin].
+  - right. rewrite Et.
+    assert (Ha : In a (tprog t)) by (rewrite Ep; now left).
+    destruct a; try exact Hno.
+    + destruct r0 as [r0|]; [|exact Hno]. intros n Hin. apply tag_set_iff in Hin as [[<- _]|[_ Hin]]; [|exact (Hno n Hin)].
+      destruct (O j t _ En Ha) as [_ E]; [left; now exists d|]. discriminate.
+    + intros n Hin. unfold tag_del in Hin. apply filter_In in Hin as [Hin _]. exact (Hno n Hin).
+Qed.
+
+Lemma call_prog_untags fs tags x r : In (TUntagMem r) (call_prog H fs tags x) -> x = CUntag r.
+Proof.
+  destruct x as [d0 c man|d0 r0|r0|]; cbn [call_prog].
+  - destruct (exists_file fs (FBlob d0)); [intros []|]. unfold push_prog. intro Hin.
+    apply in_app_or in Hin as [Hin|Hin].
+    + apply in_map_iff in Hin as (y & E & _). discriminate.
+    + destruct (H c =? d0); [|destruct Hin as [E|[]]; discriminate].
+      destruct Hin as [E|Hin]; [discriminate|]. destruct man; [|destruct Hin].
+      cbn in Hin. destruct Hin as [E|[E|[E|[E|[]]]]]; discriminate.
+  - destruct (exists_file fs (FBlob d0)); [|intros []]. cbn. intros [E|[E|[E|[E|[E|[]]]]]]; discriminate.
+  - destruct (tag_get r0 tags); [|intros []]. cbn. intros [E|[E|[E|[E|[]]]]]; try discriminate.
+    injection E as ->. reflexivity.
+  - cbn. intros [E|[E|[E|[]]]]; discriminate.
+Qed.
+
+(* no other call of the batch names reference r *)
+Definition alone_on (r : N) (i : nat) (calls : list ccall) : Prop :=
+  forall j x, nth_error calls j = Some x -> j <> i -> (forall d, x <> CTag d r) /\ x <> CUntag r.
+
+Lemma start_only s calls i r x A :
+  nth_error calls i = Some x -> alone_on r i calls ->
+  (forall a, In a (call_prog H (sfs s) (stags s) x) -> touches r a -> a = A) ->
+  Only r i A (start H s calls).
+Proof.
+  intros Ei Ho Hx j t a Et Hin T. cbn [start cthreads] in Et.
+  apply nth_map_inv in Et as (y & Ey & <-). cbn [tprog] in Hin.
+  destruct (Nat.eq_dec j i) as [->|Hn].
+  - split; [reflexivity|]. rewrite Ei in Ey. injection Ey as <-. now apply Hx.
+  - exfalso. destruct (Ho j y Ey Hn) as [N1 N2]. destruct T as [[d E]|E]; subst a.
+    + apply (N1 d). exact (call_prog_tags H (sfs s) (stags s) y d r Hin).
+    + apply N2. exact (call_prog_untags (sfs s) (stags s) y r Hin).
+Qed.
+
+Lemma tag_sched r d i is : forall c,
+  Only r i (TTagMem d (Some r)) c -> TagDone r d i c -> TagDone r d i (sched shuffle c is).
+Proof.
+  induction is as [|j is IH]; intros c O D; [exact D|].
+  cbn [sched fold_left]. apply IH; [now apply only_step|now apply tagdone_step].
+Qed.
+
+Lemma untag_sched r i is : forall c,
+  Only r i (TUntagMem r) c -> UntagDone r i c -> UntagDone r i (sched shuffle c is).
+Proof.
+  induction is as [|j is IH]; intros c O D; [exact D|].
+  cbn [sched fold_left]. apply IH; [now apply only_step|now apply untagdone_step].
+Qed.
+
+(* a Tag that has returned, no other call of the batch naming its reference: index.json has it *)
+Theorem conc_completed_tag s calls is i d r :
+  Inv H s -> Agree s ->
+  let c := sched shuffle (start H s calls) is in
+  nth_error calls i = Some (CTag d r) -> exists_file (sfs s) (FBlob d) = true ->
+  alone_on r i calls -> quiet c ->
+  exists l, read_index (cfs c) = Some l /\ In (d, Some r) l.
+Proof.
+  intros I A c Ei Ex Ho Q.
+  assert (O : Only r i (TTagMem d (Some r)) (start H s calls)).
+  { apply (start_only s calls i r (CTag d r)); [exact Ei|exact Ho|].
+    intros a Hin T. destruct T as [[d' E]|E]; subst a.
+    - apply (call_prog_tags H) in Hin. now injection Hin as ->.
+    - apply call_prog_untags in Hin. discriminate. }
+  assert (D0 : TagDone r d i (start H s calls)).
+  { left. eexists. split; [cbn [start cthreads]; apply map_nth_error; exact Ei|].
+    cbn [tprog call_prog]. rewrite Ex. cbn. right. now left. }
+  destruct (tag_sched r d i is _ O D0) as [(t & Et & Hin)|Hin].
+  - rewrite (Q t (nth_error_In _ _ Et)) in Hin. destruct Hin.
+  - destruct (quiet_synced s calls is A Q) as (l & Hl & Hs). fold c in Hl, Hs. cbn [st_of sfs stags sdigs] in Hl, Hs.
+    exists l. split; [exact Hl|]. apply Hs. now apply save_tagged.
+Qed.
+
+(* an Untag that has returned, no other call of the batch naming its reference: index.json has not *)
+Theorem conc_completed_untag s calls is i r :
+  Inv H s -> Agree s ->
+  let c := sched shuffle (start H s calls) is in
+  nth_error calls i = Some (CUntag r) -> alone_on r i calls -> quiet c ->
+  exists l, read_index (cfs c) = Some l /\ forall n, ~ In (n, Some r) l.
+Proof.
+  intros I A c Ei Ho Q.
+  assert (O : Only r i (TUntagMem r) (start H s calls)).
+  { apply (start_only s calls i r (CUntag r)); [exact Ei|exact Ho|].
+    intros a Hin T. destruct T as [[d' E]|E]; subst a; [|reflexivity].
+    apply (call_prog_tags H) in Hin. discriminate. }
+  assert (D0 : UntagDone r i (start H s calls)).
+  { cbn [start ctags cthreads]. destruct (tag_get r (stags s)) as [x|] eqn:Eg.
+    - left. eexists. split; [apply map_nth_error; exact Ei|]. cbn [tprog call_prog]. rewrite Eg. now left.
+    - right. intros n Hin. unfold tag_get in Eg.
+      destruct (find (fun e : N * N => fst e =? r) (stags s)) eqn:Ef; [discriminate|].
+      pose proof (find_none _ _ Ef (r, n) Hin) as X. cbn in X. now rewrite N.eqb_refl in X. }
+  destruct (untag_sched r i is _ O D0) as [(t & Et & Hin)|Hno].
+  - rewrite (Q t (nth_error_In _ _ Et)) in Hin. destruct Hin.
+  - destruct (quiet_synced s calls is A Q) as (l & Hl & Hs). fold c in Hl, Hs. cbn [st_of sfs stags sdigs] in Hl, Hs.
+    exists l. split; [exact Hl|]. intros n Hin. apply Hs in Hin. apply save_tagged in Hin. exact (Hno n Hin).
+Qed.
+
 (* ---------- alternating phases ---------- *)
 Lemma phases_inv ps : forall s,
   Inv H s -> Agree s -> phases_quiet H shuffle false false s ps = true ->
@@ -685,6 +860,52 @@ Proof.
   rewrite src_inplace_false, src_unlink_first_false. intros H shuffle Hs ps calls is i d cont man Q s c Ei Hc Qc.
   destruct (phases_synced H shuffle Hs ps Q) as [I A].
   exact (conc_completed_push H shuffle Hs s calls is i d cont man I A Ei Hc (quietb_quiet c Qc)).
+Qed.
+
+Theorem conc_completed_tag_src :
+  forall (H : list N -> N) (shuffle : nat -> list entry -> list entry),
+    (forall c l e, In e (shuffle c l) <-> In e l) ->
+    forall (ps : list phase) (calls : list ccall) (is : list nat) (i : nat) (d r : N),
+      phases_quiet H shuffle src_inplace src_unlink_first init ps = true ->
+      let s := run_phases H shuffle src_inplace src_unlink_first init ps in
+      let c := sched shuffle (start H s calls) is in
+      nth_error calls i = Some (CTag d r) -> exists_file (sfs s) (FBlob d) = true ->
+      (forall j x, nth_error calls j = Some x -> j <> i -> (forall d', x <> CTag d' r) /\ x <> CUntag r) ->
+      quietb c = true ->
+      exists l, read_index (cfs c) = Some l /\ In (d, Some r) l.
+Proof.
+  rewrite src_inplace_false, src_unlink_first_false. intros H shuffle Hs ps calls is i d r Q s c Ei Ex Ho Qc.
+  destruct (phases_synced H shuffle Hs ps Q) as [I A].
+  exact (conc_completed_tag H shuffle Hs s calls is i d r I A Ei Ex Ho (quietb_quiet c Qc)).
+Qed.
+
+Theorem conc_completed_untag_src :
+  forall (H : list N -> N) (shuffle : nat -> list entry -> list entry),
+    (forall c l e, In e (shuffle c l) <-> In e l) ->
+    forall (ps : list phase) (calls : list ccall) (is : list nat) (i : nat) (r : N),
+      phases_quiet H shuffle src_inplace src_unlink_first init ps = true ->
+      let s := run_phases H shuffle src_inplace src_unlink_first init ps in
+      let c := sched shuffle (start H s calls) is in
+      nth_error calls i = Some (CUntag r) ->
+      (forall j x, nth_error calls j = Some x -> j <> i -> (forall d', x <> CTag d' r) /\ x <> CUntag r) ->
+      quietb c = true ->
+      exists l, read_index (cfs c) = Some l /\ forall n, ~ In (n, Some r) l.
+Proof.
+  rewrite src_inplace_false, src_unlink_first_false. intros H shuffle Hs ps calls is i r Q s c Ei Ho Qc.
+  destruct (phases_synced H shuffle Hs ps Q) as [I A].
+  exact (conc_completed_untag H shuffle Hs s calls is i r I A Ei Ho (quietb_quiet c Qc)).
+Qed.
+
+(* two Tag calls of the same reference: the hypothesis "no other call names r" is needed *)
+Lemma conc_completed_tag_needs_alone :
+  exists (H : list N -> N) (s : st) (calls : list ccall) (is : list nat),
+    let c := sched (fun _ l => l) (start H s calls) is in
+    nth_error calls 0 = Some (CTag 1 10) /\ quietb c = true /\ read_index (cfs c) = Some [(2, Some 10); (1, None)].
+Proof.
+  exists (fun c => match c with [5] => 1 | _ => 2 end),
+         (run (fun c => match c with [5] => 1 | _ => 2 end) (fun _ l => l) false false true [Push 1 [5] true; Push 2 [6] true] init),
+         [CTag 1 10; CTag 2 10], [0; 0; 0; 0; 0; 1; 1; 1; 1; 1]%nat.
+  vm_compute. repeat split; reflexivity.
 Qed.
 
 (* without indexLock (two saveIndex calls interleave: the earlier snapshot is published last) the
